@@ -33,6 +33,8 @@ type FaultCase struct {
 	Spec tamper.Spec `json:"spec"`
 	// whole-message attacks / deviating inputs
 	Replace     bool  `json:"replace,omitempty"`      // the first copy of the message is delivered unaltered, later copies carry the alteration (the sender replaces a message the recipient already holds)
+	ReplaceLate bool  `json:"replace_late,omitempty"` // with Replace: the altered copy arrives only after the recipient has left the round that awaits the type
+	Equiv       bool  `json:"equiv,omitempty"`        // the alteration need not be rejected (another representative of the same residue, a late duplicate): only outputs and attribution are judged
 	Mirror      int   `json:"mirror,omitempty"`       // dev sends party Mirror's message of type Type as its own
 	WrongSecret bool  `json:"wrong_secret,omitempty"` // dev runs on Xi+1
 	DupParams   int   `json:"dup_params,omitempty"`   // dev brings the same pre-parameters as party DupParams (ECDSA keygen / resharing-new)
@@ -116,6 +118,12 @@ func (fc FaultCase) ID() string {
 	}
 	if fc.Replace {
 		craft += "|replace"
+	}
+	if fc.ReplaceLate {
+		craft += "-late"
+	}
+	if fc.Equiv {
+		craft += "|equiv"
 	}
 	if fc.AllDev {
 		craft += "|alldev"
@@ -308,7 +316,11 @@ func execFault(fc FaultCase) (*FaultOutcome, error) {
 			}
 			// the replacement only counts as handed over for consumption if the recipient has not yet finished the
 			// round that awaits this type (afterwards the stored copy may legitimately never be read again)
-			if r := s.Round(it.To); r > it.Round || r < 0 {
+			if fc.ReplaceLate {
+				if r := s.Round(it.To); r <= it.Round {
+					return nil
+				}
+			} else if r := s.Round(it.To); r > it.Round || r < 0 {
 				return nil
 			}
 		}
